@@ -154,7 +154,7 @@ func (b *builder) build(kind string) string {
 			ov[k] = v
 		}
 	case "race":
-		pkg = "./checks/sched"
+		pkg = "./checks/race"
 		tags = "verif,vpass"
 		extra = []string{"-race"}
 	default:
